@@ -32,7 +32,7 @@ def _records(ns, data):
         return 'raised %s' % type(e).__name__
 
 
-def compute():
+def compute(order=('files', 'split', 'writer')):
     from dxv import sut
     ns = sut.load()
     out = {}
@@ -41,90 +41,100 @@ def compute():
                                           '*.diffx')))
     default = sut.get_chunk_size()
 
-    for path in files:
-        name = os.path.basename(path)
+    def files_part():
 
-        with open(path, 'rb') as fp:
-            data = fp.read()
+        for path in files:
+            name = os.path.basename(path)
 
-        out[name + ':records'] = _digest(_records(ns, data))
+            with open(path, 'rb') as fp:
+                data = fp.read()
 
-        if default is not None:
-            for block in (1, 2, 7, 4096):
-                sut.set_chunk_size(block)
+            out[name + ':records'] = _digest(_records(ns, data))
 
-                try:
-                    out['%s:records@%d' % (name, block)] = \
-                        _digest(_records(ns, data))
-                finally:
-                    sut.set_chunk_size(default)
+            if default is not None:
+                for block in (1, 2, 7, 4096):
+                    sut.set_chunk_size(block)
 
-        # a longer first header moves every later header
-        nl = data.find(b'\n')
+                    try:
+                        out['%s:records@%d' % (name, block)] = \
+                            _digest(_records(ns, data))
+                    finally:
+                        sut.set_chunk_size(default)
 
-        for pad in (1, 50, 95, 96, 97):
-            head = data[:nl].rstrip(b'\r')
-            tail = data[len(head):]
-            sep = b', ' if b'=' in head else b' '
-            padded = head + sep + b'pad=' + b'x' * pad + tail
-            out['%s:records+pad%d' % (name, pad)] = \
-                _digest(_records(ns, padded))
+            # a longer first header moves every later header
+            nl = data.find(b'\n')
 
-        try:
-            tree = ns.DiffX.from_bytes(data)
-            out[name + ':to_bytes'] = _digest(tree.to_bytes())
-            tree.generate_stats()
-            out[name + ':stats'] = _digest(sorted(
-                (k, repr(v)) for k, v in tree.meta.get('stats', {}).items()))
-        except Exception as e:
-            out[name + ':to_bytes'] = 'raised %s' % type(e).__name__
+            for pad in (1, 50, 95, 96, 97):
+                head = data[:nl].rstrip(b'\r')
+                tail = data[len(head):]
+                sep = b', ' if b'=' in head else b' '
+                padded = head + sep + b'pad=' + b'x' * pad + tail
+                out['%s:records+pad%d' % (name, pad)] = \
+                    _digest(_records(ns, padded))
 
-    # the line splitter on its own
-    newlines = [b'\n', b'\r\n', b'\n\x00', b'\r\x00\n\x00', b'\x00\n',
-                b'\x00\r\x00\n', b'\n\x00\x00\x00',
-                b'\r\x00\x00\x00\n\x00\x00\x00', b'\x25', b'\r\x25']
-    split = ns.text.split_lines
+            try:
+                tree = ns.DiffX.from_bytes(data)
+                out[name + ':to_bytes'] = _digest(tree.to_bytes())
+                tree.generate_stats()
+                out[name + ':stats'] = _digest(sorted(
+                    (k, repr(v)) for k, v in tree.meta.get('stats', {}).items()))
+            except Exception as e:
+                out[name + ':to_bytes'] = 'raised %s' % type(e).__name__
 
-    for nl in newlines:
-        battery = [nl, b'a', b'a' + nl, b'a' + nl + b'b', nl + nl,
-                   b'a' + nl + nl + b'b' + nl, b'\r' + nl, nl + b'\n',
-                   b'x' * 100 + nl + b' y', b' ' + nl + b' ' + nl]
+    def split_part():
+        # the line splitter on its own
+        newlines = [b'\n', b'\r\n', b'\n\x00', b'\r\x00\n\x00', b'\x00\n',
+                    b'\x00\r\x00\n', b'\n\x00\x00\x00',
+                    b'\r\x00\x00\x00\n\x00\x00\x00', b'\x25', b'\r\x25']
+        split = ns.text.split_lines
 
-        for i, data in enumerate(battery):
-            for keep in (True, False):
-                try:
-                    res = repr(split(data, nl, keep))
-                except Exception as e:
-                    res = 'raised %s' % type(e).__name__
+        for nl in newlines:
+            battery = [nl, b'a', b'a' + nl, b'a' + nl + b'b', nl + nl,
+                       b'a' + nl + nl + b'b' + nl, b'\r' + nl, nl + b'\n',
+                       b'x' * 100 + nl + b' y', b' ' + nl + b' ' + nl]
 
-                out['split:%s:%d:%d' % (nl.hex(), i, keep)] = _digest(res)
+            for i, data in enumerate(battery):
+                for keep in (True, False):
+                    try:
+                        res = repr(split(data, nl, keep))
+                    except Exception as e:
+                        res = 'raised %s' % type(e).__name__
 
-    # the writer
-    for enc in ('utf-8', 'utf-16', 'cp037'):
-        stream = io.BytesIO()
+                    out['split:%s:%d:%d' % (nl.hex(), i, keep)] = _digest(res)
 
-        try:
-            w = ns.DiffXWriter(stream, encoding=enc)
-            w.write_preamble('summary\n\nbody \xe9', indent=2)
-            w.write_meta({'k': [1, None, 'v']})
-            w.new_change(encoding='latin-1')
-            w.write_preamble('c\r\nd', line_endings='dos')
-            w.new_file()
-            w.write_meta({'path': 'f'}, encoding='utf-32-le')
-            w.write_diff(b'--- a\n+++ b\n@@ -1 +1 @@\n-x\n+y')
-            res = stream.getvalue()
-        except Exception as e:
-            res = 'raised %s' % type(e).__name__
+    def writer_part():
+        # the writer
+        for enc in ('utf-8', 'utf-16', 'cp037'):
+            stream = io.BytesIO()
 
-        out['writer:%s' % enc] = _digest(res)
+            try:
+                w = ns.DiffXWriter(stream, encoding=enc)
+                w.write_preamble('summary\n\nbody \xe9', indent=2)
+                w.write_meta({'k': [1, None, 'v']})
+                w.new_change(encoding='latin-1')
+                w.write_preamble('c\r\nd', line_endings='dos')
+                w.new_file()
+                w.write_meta({'path': 'f'}, encoding='utf-32-le')
+                w.write_diff(b'--- a\n+++ b\n@@ -1 +1 @@\n-x\n+y')
+                res = stream.getvalue()
+            except Exception as e:
+                res = 'raised %s' % type(e).__name__
 
-        try:
-            lines = b'--- a\n+++ b\n@@ -1,2 +1,2 @@ ctx\n-x\n+y\n z\n'
-            out['hunks:%s' % enc] = _digest(sorted(
-                ns.unified_diffs.get_unified_diff_hunks(
-                    lines.split(b'\n')).items()))
-        except Exception as e:
-            out['hunks:%s' % enc] = 'raised %s' % type(e).__name__
+            out['writer:%s' % enc] = _digest(res)
+
+            try:
+                lines = b'--- a\n+++ b\n@@ -1,2 +1,2 @@ ctx\n-x\n+y\n z\n'
+                out['hunks:%s' % enc] = _digest(sorted(
+                    ns.unified_diffs.get_unified_diff_hunks(
+                        lines.split(b'\n')).items()))
+            except Exception as e:
+                out['hunks:%s' % enc] = 'raised %s' % type(e).__name__
+
+    parts = {'files': files_part, 'split': split_part,
+             'writer': writer_part}
+
+    for name in order:
+        parts[name]()
 
     return out
 
@@ -172,8 +182,9 @@ def in_process_variants(st, prefixes):
             failures.append(type(e).__name__)
 
     try:
-        variants.append(('after %d failed calls' % len(failures), compute(),
-                         None))
+        # (the line splitter first: nothing else has run since the failures)
+        variants.append(('after %d failed calls' % len(failures),
+                         compute(order=('split', 'writer', 'files')), None))
     except BaseException as e:
         variants.append(('after failed calls', None, e))
 
